@@ -35,8 +35,8 @@ def sel_only(ops):
 class C06(core.Check):
     pid = 'C06'
     driver = 'drv_ragged'
-    quick_cases = 2500
-    thorough_cases = 40000
+    quick_cases = 12000
+    thorough_cases = 120000
     rule = ('families: from(cells) round trip incl. rejected inputs; cat of a partition of the rows/columns of a container '
             '(1..5 consecutive parts, empty parts allowed, each part cut by slicing = a view); cat of parts produced by '
             'arbitrary selection programs; cat of mismatching parts / empty list; clone; to_dense; fillna_col on a (view) '
